@@ -21,6 +21,20 @@ NA = {
 PENDING = "static rule designed in DESIGN section 3; check not yet registered (under construction)"
 
 CHECKS = {
+ "C14": {
+  "text": "Static inventory (from MIR) of panic-capable sites of fixed kinds reachable from the front-end entry points - "
+          "constant-index accesses, constant-start slicing, unwrap/expect, explicit panics, integer and big-integer division - "
+          "each discharged on every path by a forward length-domain abstract interpretation with helper summaries, an "
+          "infallible-producer list, a dominating Some/Ok test, a constant divisor or a reviewed table line; plus: every "
+          "compile-time CLVM evaluation started by the compiler is step-bounded and the evaluator tests the bound before each "
+          "step. Decides this structural clause, not termination or the located-error clause. Found F3, F4, F5 (fixed).",
+  "note": "Not decided (counted in evidence): variable-index accesses, debug-only overflow checks, RefCell double borrows, "
+          "allocation failure, stack depth, panics inside dependencies, general termination. tables/panic_sites.json holds 67 "
+          "reviewed sites (classes environment / constant / invariant / caller-guarded / baseline-unproven); wrong reviews are "
+          "possible (one was: F5) and an adversarial re-review is recorded in DESIGN.md.",
+  "technique": "MIR abstract interpretation (length domain) + dominance + CHA reachability + reviewed table",
+  "design": "3.9",
+ },
  "C05": {
   "text": "Decides six structural clauses on every path of the current sources: every std hash-container iteration "
           "(51 today, found by type) is consumed order-insensitively, sanitised by a sort, unreachable from the compile "
